@@ -32,6 +32,7 @@ package jpeg
 //@   ensures [C10] r0 ==> data(jr.br, pos(jr.br)) == 0xFF && uint8(jr.marker) == data(jr.br, pos(jr.br) + 1) && jr.size == be16At(jr.br, pos(jr.br) + 2) && jr.offset == jr.discarded
 //@   ensures [C10] pos(jr.br) >= old(pos(jr.br)) && jr.discarded == old(jr.discarded) + uint32(pos(jr.br) - old(pos(jr.br)))
 //@   ensures [C02] !r0 ==> jr.err != nil
+//@   ensures [C02] old(jr.err) != nil ==> !r0 && pos(jr.br) == old(pos(jr.br))
 //@   loop 0 invariant jr.br != nil && pos(jr.br) >= old(pos(jr.br)) && jr.discarded == old(jr.discarded) + uint32(pos(jr.br) - old(pos(jr.br)))
 //@   loop 0 decreases ite(jr.err == nil, 1, 0), lim(jr.br) - pos(jr.br)
 
